@@ -666,6 +666,28 @@ func c10ZombieRisk(p []c10Decl) bool {
 	return false
 }
 
+// c10KeyedNull: an indexed reference resets, inside its map, a keyword that an earlier
+// (s -> t)[i].<keyword>: v assigned — d2ir then deletes the whole connection.
+func c10KeyedNull(p []c10Decl) bool {
+	sites := c10Sites(p)
+	for _, b := range sites {
+		if b.D.Kind != c10Edge || b.D.Idx == nil || !b.D.HasEB {
+			continue
+		}
+		for _, kv := range b.D.EB {
+			if kv.V != nil {
+				continue
+			}
+			for _, a := range sites {
+				if a.Pos < b.Pos && a.D.Kind == c10EdgeAttr && a.D.V != nil && a.D.K == kv.K {
+					return true
+				}
+			}
+		}
+	}
+	return false
+}
+
 func c10KFStep(p []c10Decl, d *c10Decl) []string {
 	var kf []string
 	all := append(append([]c10Decl(nil), p...), *d)
@@ -674,6 +696,9 @@ func c10KFStep(p []c10Decl, d *c10Decl) []string {
 	}
 	if c10ZombieRisk(all) {
 		kf = append(kf, "C10-null-container-resurrected")
+	}
+	if c10KeyedNull(all) {
+		kf = append(kf, "C10-edge-attribute-null-deletes-edge")
 	}
 	switch {
 	case d.Kind == c10Obj && d.Prim == c10PNull:
@@ -764,6 +789,9 @@ func c10Cases(p []c10Decl, class string, kfStep func(p []c10Decl, d *c10Decl, rp
 	}
 	if c10ZombieRisk(p) {
 		c.KF = append(c.KF, "C10-null-container-resurrected", "C11-null-container-resurrected")
+	}
+	if c10KeyedNull(p) {
+		c.KF = append(c.KF, "C10-edge-attribute-null-deletes-edge", "C11-edge-attribute-null-deletes-edge")
 	}
 	out = append(out, c)
 	if len(p) >= 1 {
